@@ -327,7 +327,8 @@ class PrettyPrinter:
         lines = []
 
         for composite in composites:
-            type_ = composite["__type__"]
+            # a lookup with [] would add the key to an auto-creating dict
+            type_ = composite.get("__type__")
             if type_ in ("metadata", "validation", "connectionoptions"):
                 # types are being parsed directly, and not as an attr of a parent
                 lines += self.process_key_dict(type_, composite, level=-1)
